@@ -88,3 +88,14 @@ def tb_site(e):
             site = (fn.split("/utype/")[-1], tb.tb_frame.f_code.co_name)
         tb = tb.tb_next
     return site
+
+
+def raised_in_harness_object(e):
+    """True when the innermost frame of e's traceback is harness-supplied code (a hostile dunder of
+    vmon/values.py): the exception is the input object's own, raised while the library touched it"""
+    tb = e.__traceback__
+    last = None
+    while tb is not None:
+        last = tb.tb_frame.f_code.co_filename
+        tb = tb.tb_next
+    return bool(last) and last.endswith("vmon/values.py")
